@@ -52,6 +52,16 @@ func main() {
 		os.Exit(cmdChild(os.Args[2:]))
 	case "replay":
 		os.Exit(cmdReplay(os.Args[2:]))
+	case "one":
+		// vmon one <ID> <profile> <index> <out.json>: run a single history of a check and save it
+		def := checkDefs()[os.Args[2]]
+		idx, _ := strconv.Atoi(os.Args[4])
+		rep := RunHistory(NewWorld(), def, os.Args[3], envSeed(), idx, "quick", "")
+		_ = rep.runner.Hist.Save(os.Args[5])
+		for _, v := range rep.Viol {
+			fmt.Printf("violated %s at step %d: %s\n", v.Assert, v.Step, v.Msg)
+		}
+		fmt.Printf("steps %d classes %v\n", rep.Steps, sortedIntMap(rep.Classes))
 	case "list":
 		for _, id := range sortedKeys(checkDefs()) {
 			fmt.Println(id)
